@@ -29,6 +29,7 @@ class Program:
         self.reexp = {}      # crate -> [(base, item, alias)]
         self.by_last = {}    # crate -> {last segment: [Fn]}
         self.closures = {}   # closure tag -> Fn
+        self.local_traits = set()   # traits declared in the loaded crates (impls on std types resolve to repo code)
         self.std_enums = {k: defs.std_enum(k) for k in defs.STD_ENUMS}
         self._enum_cache = {}
         self._resolve_cache = {}
@@ -45,6 +46,7 @@ class Program:
         self.by_last[crate] = bl
         if expanded_path and os.path.exists(expanded_path):
             self.enums[crate], self.reexp[crate] = defs.parse_expanded(expanded_path, crate)
+            self.local_traits.update(re.findall(r"^\s*(?:pub(?:\([^)]*\))?\s+)?(?:unsafe\s+)?trait\s+(\w+)", open(expanded_path).read(), re.M))
         else:
             self.enums[crate], self.reexp[crate] = {}, []
 
@@ -185,7 +187,7 @@ class Program:
         segs = base.name.split("::")
         tcrate = crate
         if segs[0] in CRATE_ALIASES: tcrate, segs = CRATE_ALIASES[segs[0]], segs[1:]
-        if segs[0] in ("std", "core", "alloc") or segs[-1] in STD_TYPES: return None
+        if (segs[0] in ("std", "core", "alloc") or segs[-1] in STD_TYPES) and tname not in self.local_traits: return None
         tyname = segs[-1]
         out = []
         for c2 in ([tcrate] + [c for c in self.fns if c != tcrate]):
